@@ -77,7 +77,7 @@ static const char *opnames[OP_MAX] = {
 typedef struct { int op; long long a[6]; int na; } op_t;
 typedef struct { int nops; op_t *ops; int ret; int err; } script_t;
 
-#define MAXSLOT 24
+#define MAXSLOT 40
 #define MAXINV 256
 enum { K_EVAL, K_START, K_STOP, K_EVT, K_N };
 static const char *kindnames[K_N] = { "eval", "start", "stop", "evt" };
